@@ -54,10 +54,16 @@ class HistoryEvolvent:
         self.ev, self.lo, self.hi = ev, list(lo), list(hi)
         self.other = ([a - 3.0 * (b - a) - 1.0 for a, b in zip(lo, hi)], [b + 2.0 * (b - a) + 0.5 for a, b in zip(lo, hi)])
         self.mid = [(a + b) / 2.0 for a, b in zip(lo, hi)]
+        import math
+        ints = [int(math.ceil(a)) for a in lo]
+        # an integer-typed point of the box, if there is one (the repository's own test calls GetPreimages([0]))
+        self.intpoint = ints if all(a <= k <= b for k, a, b in zip(ints, lo, hi)) else None
 
     def _churn(self, replay):
         replay()
         self.ev.GetInverseImage(list(self.mid))
+        if self.intpoint is not None:
+            self.ev.GetPreimages(list(self.intpoint))
         self.ev.GetImage(0.3)
         self.ev.SetBounds(list(self.other[0]), list(self.other[1]))
         replay()
